@@ -32,6 +32,7 @@ META["explanation"] += " R09.15 refill positions (balance.py): an item the adapt
 META["explanation"] += ' R09.16 checked additions / multiplications whose operand is the raw limit / count value (which may be usize::MAX) are reported: the stream panics where the property demands a view.'
 META["explanation"] += ' R09.9 decides the collect() idioms (a Peekable whose peek() is Some on every path; `repeat(x).take(a - b)` under a > b) and, in the balance analysis, reports a path that answers Some(..) with only `x n` groups whose counts can all be 0 (witness). R09.5 is UNDECIDED when the translator does not build its result by pushes; the balance analysis refuses (UNDECIDED) paths on which a diff is built but not pushed. An update function written as a free function over the projected fields is recognised; its own rules are then not evaluated (UNDECIDED), the rest of the adapter is.'
 META["explanation"] += ' R09.17 no panic! / assert! of their own in the Head / Tail / Skip modules. Shared with C12: R12.1 / R12.2 (what into_parts hands to the next stage).'
+META["explanation"] += ' R09.18 secondary input fused: an input of the poll function whose end does not end the adapter (limit / count stream) is not polled again after it answered Ready(None) - the field is a fused type, or every poll site is guarded by a termination memory (a bool field written true only under that None edge). On the unchanged tree this re-derives the known finding F12 for Head, Tail and Skip. The typestate (R14.1) treats an input whose termination memory is true as ended.'
 
 
 def run(ctx):
@@ -60,6 +61,7 @@ def run(ctx):
         if not free_update:
             r09_9(ctx, a)
         r09_14(ctx, a)
+        r09_18(ctx, a)
         r09_10(ctx, a)
         from . import balance
         nb = balance.run_adapter(ctx, a, want=("balance", "index", "bound"))
@@ -685,7 +687,61 @@ def r09_17(ctx):
             sp = t.get("span") or {}
             n += 1
             root = root_fn(F, f)
+            # decided only when the panic is guarded by a test of the incoming diff's payload (an index / length check of the adapter's
+            # own); an `unreachable!()` in an arm the author believes impossible is not decided here
+            facts = conds.bare(conds.dominating_facts(b, blk))
+            on_payload = any(x[0] in ("cmp", "truth") and any(isinstance(y, tuple) and contains(y, lambda z: z[0] == "downcast" or (z[0] == "field" and z[2] in ("index", "length", "values", "value"))) for y in x[1:]) for x in facts)
+            if not on_payload:
+                ctx.undecided("R09.17", root, "no-own-panic", b.line_at((blk, 10 ** 6)), "a panic site that is not guarded by a test of the diff's payload")
+                continue
             ctx.violated("R09.17", root, "no-own-panic", b.line_at((blk, 10 ** 6)),
                          "`%s` contains a panic / assertion of its own: a source diff that trips it (e.g. an Insert at the very end of the vector, index == length) makes the adapter's stream panic where the property demands the corresponding view" % root.path)
     if not n:
         ctx.holds("R09.17", None, "no-own-panic", None, "no panic!/assert! in the Head / Tail / Skip modules")
+
+
+
+def r09_18(ctx, a):
+    """the limit / count stream may end (a finite sequence of limits) while the source lives on: the adapter then keeps presenting
+    the window with the last value. It must not poll that stream again after it answered Ready(None) - the Stream contract allows a
+    finished stream to panic or block when polled again (futures' `unfold`, async generators ..). Since poll_next is re-entered for
+    every source change, the adapter has to remember the termination: the poll site is guarded by a test of a field of the adapter
+    (written on the None edge), or the field's type is a fused stream."""
+    F = ctx.facts
+    f = a.poll
+    b = f.built
+    n = 0
+    for blk, t in b.calls():
+        if not wakers.is_poll_call(t) or not t["args"]:
+            continue
+        name = wakers.input_name(b, t)
+        if name in ("inner_stream", "?", "<waker list>") or name.startswith("helper:"):
+            continue
+        n += 1
+        ty = ""
+        adt = F.adt(UT, (root_fn(F, f).raw.get("self_ty") or "").split("<")[0].replace("Proj", ""))
+        if adt:
+            for fd in adt["variants"][0]["fields"]:
+                if fd["name"] == name:
+                    ty = fd["ty"]
+        fused = bool(re.search(r"(^|::)Fuse<", ty))
+        facts = conds.bare(conds.dominating_facts(b, blk))
+        guarded = any(x[0] in ("truth", "cmp", "variant") and any(isinstance(y, tuple) and contains(y, lambda z: z[0] == "field" and z[2] not in (name, "inner_stream", "ready_values", "buffered_vector")) for y in x[1:]) for x in facts)
+        # the memory must be written on the None edge of this very poll
+        none_written = False
+        info = None
+        sw = t.get("target")
+        for _ in range(4):
+            if sw is None:
+                break
+            info = conds.switch_info(b, sw)
+            if info:
+                break
+            sw = b.succ[sw][0] if len(b.succ[sw]) == 1 else None
+        where = b.line_at((blk, 10 ** 6))
+        if fused or guarded:
+            ctx.holds("R09.18", f, "secondary-input-fused:%s" % name, where, "`%s` is not polled again after it ended (%s)" % (name, "fused type" if fused else "guarded by a field of the adapter"))
+        else:
+            ctx.violated("R09.18", f, "secondary-input-fused:%s" % name, where,
+                         "`%s` polls `%s` on every call, also after that stream has answered Ready(None): a finite, non-fused limit stream (e.g. futures' `unfold`) panics on the first source change after its end, where the adapter should keep following the source with the last value" % (f.path, name))
+    return n
